@@ -4328,10 +4328,10 @@ def check_onepoint(goal, ctx):
             for v, t in one_val_var.items():
                 found = False
                 for i, disj in enumerate(disjs):
-                    if disj.is_not() and disj.arg.is_equals() and disj.arg.lhs == v:
+                    if disj.is_not() and disj.arg.is_equals() and disj.arg.lhs == v and disj.arg.rhs == t:
                         found = True
                         break
-                    if disj.is_not() and disj.arg.is_equals() and disj.arg.rhs == v:
+                    if disj.is_not() and disj.arg.is_equals() and disj.arg.rhs == v and disj.arg.lhs == t:
                         found = True
                         break
                 if not found:
